@@ -105,3 +105,70 @@ def exc_obs(e):
     import cvss
     return {"exc": type(e).__name__, "is_cvss_error": isinstance(e, cvss.CVSSError),
             "mro": [c.__name__ for c in type(e).__mro__], "msg": esc(text_type(e))[:300]}
+
+
+def warm_up():
+    """A history before the recorded events: every entry point and API of the library is exercised once (interactive builder for
+    every version and mode with a scripted terminal, the calculator's main(), text extraction, failing and successful constructions,
+    every accessor).  What is recorded afterwards must not depend on it; failures in here are not this recording's business."""
+    import io
+    class _In(object):
+        pool = ["", "N", "L", "H", "A", "P", "M", "S", "C", "U", "R", "X", "ND", "POC", "OF", "TF", "W", "UC", "UR", "F", "T", "O",
+                "LM", "MH", "Y", "D", "I", "Clear", "Green", "Amber", "Red", "n", "a"]
+
+        def __init__(self):
+            self.k = 0
+
+        def readline(self, *a):
+            self.k += 1
+            if self.k > 6000:
+                return "" if not PY2 else b""
+            r = self.pool[(self.k * 7) % len(self.pool)] + "\n"
+            return r if not PY2 else r.encode("utf-8")
+
+        def isatty(self):
+            return False
+    saved = sys.stdin, sys.stdout, sys.stderr, sys.argv
+    sink = io.StringIO() if not PY2 else io.BytesIO()
+    try:
+        sys.stdout = sys.stderr = sink
+        try:
+            from cvss.interactive import ask_interactively
+            from cvss import cvss_calculator, CVSS2, CVSS3, CVSS4
+            from cvss.parser import parse_cvss_from_text
+            for ver in (2, 3.0, 3.1, 4.0, 3, 4):
+                for allm in (False, True):
+                    for nc in (True, False):
+                        sys.stdin = _In()
+                        try:
+                            ask_interactively(ver, allm, nc)
+                        except Exception:  # noqa
+                            pass
+            vs = {CVSS2: "AV:N/AC:L/Au:N/C:P/I:P/A:C/E:POC/RL:OF/RC:UC/CDP:LM/TD:M/CR:H/IR:L/AR:ND",
+                  CVSS3: "CVSS:3.0/AV:L/AC:H/PR:L/UI:R/S:C/C:L/I:H/A:N/E:P/RL:T/RC:R/CR:H/IR:L/AR:X/MAV:A/MAC:L/MPR:H/MUI:N/MS:U/MC:N/MI:L/MA:H",
+                  CVSS4: "CVSS:4.0/AV:A/AC:H/AT:P/PR:L/UI:P/VC:L/VI:H/VA:N/SC:L/SI:H/SA:N/E:P/CR:H/IR:L/AR:M/MAV:L/MAC:L/MAT:N/MPR:H/MUI:A/MVC:N/MVI:L/MVA:H/MSC:N/MSI:S/MSA:L/S:P/AU:Y/R:I/V:C/RE:M/U:Amber"}
+            for argv in (["-v", vs[CVSS3]], ["-v", vs[CVSS2], "-j"], ["-v", vs[CVSS4], "-j"], ["-2"], ["-3", "-a"], ["-4", "-a", "-n"], ["-v", "junk"], []):
+                sys.stdin = _In()
+                sys.argv = ["cvss_calculator"] + argv
+                try:
+                    cvss_calculator.main()
+                except BaseException:  # noqa - SystemExit included
+                    pass
+            parse_cvss_from_text("a " + vs[CVSS2] + " b (" + vs[CVSS3] + ") c " + vs[CVSS4] + ". " + vs[CVSS3].replace("3.0", "3.1") + " CVSS:3.1/AV:N")
+            for cls, v in vs.items():
+                for text in (v, v + "/", v.replace(":", "::"), "", "CVSS:3.1/AV:N", v.split("/E:")[0], "7.5/" + v, "x/" + v, v + "/ZZ:Q"):
+                    for k in (cls, cls.from_rh_vector):
+                        try:
+                            o = k(text)
+                            o.scores(), o.severities(), o.clean_vector(), o.rh_vector(), hash(o), o == o
+                            for s_ in (False, True):
+                                for m_ in (False, True):
+                                    o.as_json(sort=s_, minimal=m_)
+                            if cls is not CVSS4:
+                                o.temporal_vector(), o.environmental_vector()
+                        except Exception:  # noqa
+                            pass
+        except Exception:  # noqa
+            pass
+    finally:
+        sys.stdin, sys.stdout, sys.stderr, sys.argv = saved
